@@ -250,6 +250,17 @@ def specials():
     inner = minimal(env={"suit-integrated-payloads": {"#radio": "aa"}})
     mid = minimal(env={"suit-integrated-dependencies": {"#radio": inner}})
     yield minimal(env={"suit-integrated-dependencies": {"#app": mid, "#radio": minimal(man={"suit-reference-uri": "other"})}})
+    # order inside maps: a per-component text entry before / between plain text keys; dependencies before, between and after plain payloads
+    comp = json.dumps(["M", 2])
+    for items in ([(comp, {"suit-text-vendor-name": "v"}), ("suit-text-manifest-description", "d")],
+                  [("suit-text-update-description", "u"), (comp, {"suit-text-model-name": "m"}), ("suit-text-manifest-description", "d"), (json.dumps(["I"]), {"suit-text-vendor-domain": "x"})]):
+        yield minimal(man={"suit-text": {"suit-digest-algorithm-id": "cose-alg-sha-256"}}, env={"suit-text": {"en": dict(items), "pl": dict(reversed(items))}})
+    leaf = minimal(man={"suit-reference-uri": "leaf"})
+    yield {"SUIT_Envelope_Tagged": {**minimal()["SUIT_Envelope_Tagged"], "suit-integrated-dependencies": {"#dep": leaf}, "suit-integrated-payloads": {"#after": "0102"}}}
+    e = dict(minimal(env={"suit-integrated-payloads": {"#a": "01"}})["SUIT_Envelope_Tagged"])
+    e["suit-integrated-dependencies"] = {"#mid": {"SUIT_Envelope_Tagged": {**minimal()["SUIT_Envelope_Tagged"], "suit-integrated-dependencies": {"#leaf": leaf},
+                                                                         "suit-integrated-payloads": {"#z": "03"}}}}
+    yield {"SUIT_Envelope_Tagged": e}
 
 
 def plan(ctx):
